@@ -8,6 +8,9 @@
     - TRUE for routed edges, i.e. for the edges between consecutive centres of the chain an input edge is
       replaced by (and more generally between any two centres of that chain): [C04_clause2_routed_edges],
       [C04_clause2_routed_chain]; hence for the whole output whenever every output edge is a routed edge;
+    - TRUE END TO END ON THE CLASS OF C18 (no routed-and-cleaned ring visits a centre at three positions), for
+      snapPolygon, every requested level, every configuration, every point of every returned edge:
+      [C04_clause2_on_class] (section at the end of this file);
     - FALSE in general for the faithful model and the implementation (finding F5, kmpDeduplicate invents an
       edge): [C04_refuted], witness replayed on the real code.
 
@@ -154,3 +157,95 @@ Theorem C04_clause1_vertex_provenance : forall g P levels cfg r L ps p,
             containsPoint v (quadExtent g L (fst (pixelOf g L v)) (snd (pixelOf g L v))) = true.
 Proof. exact output_vertex_is_pixel_centre_of_input_vertex. Qed.
 Print Assumptions C04_clause1_vertex_provenance.
+
+(** ** clause 2 ON THE CLASS OF C18, end to end.
+
+    The class: at every requested level, every routed-and-cleaned ring (the argument of kmpDeduplicate,
+    [routedClean], Properties/C18.v) visits no pixel centre at three positions ([le2]).  Then — for every list of
+    rings inside a grid whose stored extent covers its pixels, every requested level within the index, every
+    configuration — every point (1 - lam) p + lam q, lam rational in [0,1], of every cyclic edge (p, q) of every
+    returned ring (kept lines included, in both directions) is within half a pixel of that level (Chebyshev, closed)
+    of a point of an edge of the input polygon.  Composition of [C18_snapPolygon_edges_are_routed_steps] (on the
+    class every returned edge is, up to direction, a step between two consecutive centres of the chain one polygon
+    edge is replaced by) with [C04_clause2_routed_chain].  [ExactMiddle g L] (L above the deepest level, or an even
+    resolution) is what makes the centre the exact middle of the pixel; without it the bound is half a unit larger.
+    OUTSIDE the class the statement is false: [C04_refuted] (F5, a centre visited four times). *)
+From Texel Require Import Snap.ProofsJoinC18 Snap.ProofsJoinC04b.
+From Texel Require Snap.ProofsKmpEdges Snap.ProofsKmpLe2.
+
+Theorem C04_clause2_on_class : forall g P levels cfg res hs, 0 < gres g -> RootCovers g ->
+  (forall L, In L levels -> (L <= gdeep g)%nat) -> insertPolygon g P = Ok hs ->
+  (forall L idx r c, In L levels -> nth_error P idx = Some r ->
+     routedClean g (hotLevels g hs) L idx r = Ok c -> ProofsKmpLe2.le2 c) ->
+  snapPolygon g P levels cfg = Ok res ->
+  forall L ps poly x e lam, In (L, ps) res -> In poly ps -> In x poly -> In e (ProofsKmpEdges.cedges x) ->
+    ExactMiddle g L -> (0 <= lam -> lam <= 1 ->
+    exists f t, In f (flat_map ring_edges P) /\ 0 <= t /\ t <= 1 /\
+                ChebLe (halfSpan g L) (between (fst e) (snd e) lam) (segPt (fst f) (snd f) t))%Q.
+Proof. exact clause2_on_class. Qed.
+Print Assumptions C04_clause2_on_class.
+
+(** the same without [ExactMiddle]: half a unit (0.5e-10) more *)
+Theorem C04_clause2_on_class_general : forall g P levels cfg res hs, 0 < gres g -> RootCovers g ->
+  (forall L, In L levels -> (L <= gdeep g)%nat) -> insertPolygon g P = Ok hs ->
+  (forall L idx r c, In L levels -> nth_error P idx = Some r ->
+     routedClean g (hotLevels g hs) L idx r = Ok c -> ProofsKmpLe2.le2 c) ->
+  snapPolygon g P levels cfg = Ok res ->
+  forall L ps poly x e lam, In (L, ps) res -> In poly ps -> In x poly -> In e (ProofsKmpEdges.cedges x) ->
+    (0 <= lam -> lam <= 1 ->
+    exists f t, In f (flat_map ring_edges P) /\ 0 <= t /\ t <= 1 /\
+                ChebLe (halfSpan g L + (1 # 2)) (between (fst e) (snd e) lam) (segPt (fst f) (snd f) t))%Q.
+Proof. exact clause2_on_class_general. Qed.
+Print Assumptions C04_clause2_on_class_general.
+
+(** in the vocabulary of [C04_refuted] ([edges ps]: all rings of all polygons taken cyclically): on the class the
+    refuted statement holds, at every parameter and not only at the midpoint *)
+Theorem C04_clause2_on_class_edges : forall g P levels cfg res hs, 0 < gres g -> RootCovers g ->
+  (forall L, In L levels -> (L <= gdeep g)%nat) -> insertPolygon g P = Ok hs ->
+  (forall L idx r c, In L levels -> nth_error P idx = Some r ->
+     routedClean g (hotLevels g hs) L idx r = Ok c -> ProofsKmpLe2.le2 c) ->
+  snapPolygon g P levels cfg = Ok res ->
+  forall L ps e lam, In (L, ps) res -> In e (edges ps) -> ExactMiddle g L -> (0 <= lam -> lam <= 1 ->
+    exists f t, In f (flat_map ring_edges P) /\ 0 <= t /\ t <= 1 /\
+                ChebLe (halfSpan g L) (between (fst e) (snd e) lam) (segPt (fst f) (snd f) t))%Q.
+Proof. exact clause2_on_class_edges. Qed.
+Print Assumptions C04_clause2_on_class_edges.
+
+(** non-vacuity (the neck example of Properties/C18.v: 32 x 32 pixels of size 2, two blocks joined by a corridor of
+    width 2 that collapses to a line at levels 3 and 2, its ends visited twice).  All hypotheses hold at the levels
+    5, 3, 2; the level-3 result contains the edge (20,28)-(20,60), which is no image of a single input edge end to
+    end (the block's side x = 22 runs from y = 31 to 62), and the exact oracle finds an input edge within half a
+    pixel (4) of its midpoint. *)
+Definition c04G : grid := mkGrid (mkExtent 0 0 64 64) 2 5.
+Definition c04Neck : list ring :=
+  [[(2,2);(22,2);(22,29);(42,29);(42,2);(62,2);(62,62);(42,62);(42,31);(22,31);(22,62);(2,62)]].
+Definition c04NeckLevel3 : list (list ring) :=
+  [[[(4,4);(20,4);(20,28);(20,60);(4,60)]]; [[(44,28);(44,4);(60,4);(60,60);(44,60)]]; [[(20,28);(44,28)]]].
+
+Example C04_clause2_on_class_example :
+  exists hs, insertPolygon c04G c04Neck = Ok hs /\
+    0 < gres c04G /\ RootCovers c04G /\ (forall L, In L [5; 3; 2]%nat -> (L <= gdeep c04G)%nat /\ ExactMiddle c04G L) /\
+    (forall L idx r c, In L [5; 3; 2]%nat -> nth_error c04Neck idx = Some r ->
+       routedClean c04G (hotLevels c04G hs) L idx r = Ok c -> ProofsKmpLe2.le2 c) /\
+    (exists res, snapPolygon c04G c04Neck [5; 3; 2]%nat (mkConfig true false false) = Ok res /\
+                 In (3%nat, c04NeckLevel3) res) /\
+    In ((20,28),(20,60)) (edges c04NeckLevel3) /\
+    ~ In ((20,28),(20,60)) (flat_map ring_edges c04Neck) /\
+    quadSpan c04G 3 = 8 /\
+    existsb (edge_near_mid_b (quadSpan c04G 3) ((20,28),(20,60))) (flat_map ring_edges c04Neck) = true.
+Proof.
+  destruct (insertPolygon c04G c04Neck) as [hs |] eqn:E; [| vm_compute in E; discriminate].
+  exists hs. split; [reflexivity |]. vm_compute in E. inversion E; subst hs. clear E.
+  split; [reflexivity |]. split; [vm_compute; repeat split; discriminate |].
+  split.
+  { intros L HL. cbn [In] in HL. destruct HL as [<- | [<- | [<- | []]]];
+      (split; [cbn [gdeep c04G]; repeat constructor | right; reflexivity]). }
+  split.
+  { intros L idx r c HL. revert idx r c. apply class_le2b_sound. cbn [In] in HL.
+    destruct HL as [<- | [<- | [<- | []]]]; vm_compute; reflexivity. }
+  split.
+  { eexists. split; [vm_compute; reflexivity |]. right. left. reflexivity. }
+  split; [vm_compute; tauto |].
+  split; [vm_compute; intuition congruence |].
+  split; vm_compute; reflexivity.
+Qed.
